@@ -162,8 +162,19 @@ class Runner:
         # it = ("ev", dur, active, kind, payload)
         _, dur, active, kind, payload = it
         d = {"duration": self.beats(dur)}
+        # `active` in the types a program may compute it in: the documented 0/1 steps of PSequence / PImpulse / PCoin, floats,
+        # numpy booleans, the None steps of a rhythm — "inactive" is any falsy value, "active" any truthy one
+        self.n_events = getattr(self, "n_events", 0) + 1
         if not active:
-            d["active"] = False
+            falsy = [False, False, 0, 0.0, None]
+            try:
+                import numpy as np
+                falsy += [np.bool_(False), np.int64(0)]
+            except ImportError:
+                pass
+            d["active"] = falsy[(self.n_events + dur) % len(falsy)]
+        elif (self.n_events + dur) % 3 == 0:
+            d["active"] = [True, 1, 1.0, 2, "on"][(self.n_events // 3) % 5]
         if kind == "note":
             vs = payload
             notes = [v[0] for v in vs]
@@ -272,7 +283,11 @@ class Runner:
                     kw["quantize"] = self.beats(qz)
                 if dl is not None:
                     kw["delay"] = self.beats(dl)
-                tr = tl.schedule(self.new_pattern(sid), count=self.typed_count(count), remove_when_done=rwd,
+                # True is the documented default of remove_when_done: every other call leaves it out
+                self.n_sched = getattr(self, "n_sched", 0) + 1
+                if not (rwd and self.n_sched % 2):
+                    kw["remove_when_done"] = rwd
+                tr = tl.schedule(self.new_pattern(sid), count=self.typed_count(count),
                                  name=(None if name is None else track_name(name)), replace=replace, **kw)
                 if id(tr) not in self.ids:
                     tid = len(self.tracks)
